@@ -178,7 +178,7 @@ class Spark2Generator(HiveGenerator):
                 "REGEXP_REPLACE",
                 e.this,
                 e.expression,
-                e.args["replacement"],
+                e.args.get("replacement"),
                 e.args.get("position"),
             ),
             exp.Select: transforms.preprocess(
